@@ -7,7 +7,8 @@ LEVEL = 'proof'
 DRIVER = 'drv_c09'
 HARNESS = 'c09.cpp'
 SOURCES = ['src/pointset/algorithms/NormalAndCurvatureEstimation.cpp', 'src/pointset/KdTree.cpp']
-PROOF_MODULES = ['RomeaProofs.Properties.C09']
+PROOF_MODULES = ['RomeaProofs.Properties.C09', 'RomeaProofs.Bridge.C09', 'RomeaProofs.Bridge.C09Cor',
+                 'RomeaProofs.Bridge.C09Compute', 'RomeaProofs.Bridge.C09ComputeCor']
 HANG_SECS = 120
 TRUSTED = ['harness/c09.cpp: brute-force neighbourhoods, reference covariance and eigenvalues in long double (own Jacobi iteration)',
            'the k-NN query and Eigen::SelfAdjointEigenSolver are parameters of the model (contracts: C08 statement / IsEigSym); '
@@ -24,6 +25,39 @@ ASSUMPTIONS = ['theorems over the reals for every oracle satisfying the contract
 EXPLANATION = ('proof (under the k-NN and eigen-solver contracts) of unit length, orientation, least variance, curvature range and '
                'planar exactness on the Lean model + differential correspondence within tolerance + property probe against '
                'long-double brute-force references')
+
+# ------------------------------------------------------------------ stage G: the anchored functions themselves, translated (DESIGN.md 2.5b)
+_PT = [('v2f', 'Eigen::Matrix<float, 2, 1, 0>'), ('v2d', 'Eigen::Matrix<double, 2, 1, 0>'),
+       ('v3f', 'Eigen::Matrix<float, 3, 1, 0>'), ('v3d', 'Eigen::Matrix<double, 3, 1, 0>'),
+       ('h2f', 'romea::core::HomogeneousCoordinates2<float>'), ('h2d', 'romea::core::HomogeneousCoordinates2<double>'),
+       ('h3f', 'romea::core::HomogeneousCoordinates3<float>'), ('h3d', 'romea::core::HomogeneousCoordinates3<double>')]
+_CLS = 'romea::core::NormalAndCurvatureEstimation<%s>'
+BRIDGE_SPEC = {
+    'id': 'C09',
+    'sources': ['src/pointset/algorithms/NormalAndCurvatureEstimation.cpp'],
+    # the orientation helper is a function template in an ANONYMOUS namespace (outside the `romea` filter): dumped by a second clang pass
+    'extra_filters': ['flipNormalTowardOriginCoordinate'],
+    # `planeEstimation_` (k-NN query + covariance + Eigen::SelfAdjointEigenSolver) stays an ORACLE, as in the model (parameters `knn`, `eig`):
+    # what it leaves in `eigenValues_` / `eigenVectors_` is an uninterpreted function of the point index; the members it also touches
+    # may not be read by a translated function
+    'oracles': {'planeEstimation_': {'writes': ['eigenValues_', 'eigenVectors_'],
+                                     'hides': ['neighborIndexes_', 'neighborSquareDistances_', 'eigenSolver_']}},
+    'functions':
+        [{'cxx': 'flipNormalTowardOriginCoordinate', 'targs': t, 'suffix': '_' + s_} for s_, t in _PT] +
+        [{'cxx': 'NormalAndCurvatureEstimation::computeNormalReliability', 'record': 'NormalAndCurvatureEstimation<%s>' % t,
+          'suffix': '_' + s_} for s_, t in _PT] +
+        # the three `compute(points, pointsKdTree, …)` overloads (the per-point body after the decomposition: curvature, copy of the first
+        # eigenvector, orientation, reliability; loop over the cloud by recursion on the trip count)
+        [{'cxx': 'NormalAndCurvatureEstimation::compute', 'record': 'NormalAndCurvatureEstimation<%s>' % t,
+          'sig': 'KdTreeType &, %s::NormalSetType &%s)' % (_CLS % t, ''.join(', %s::VectorType &' % (_CLS % t) for _ in range(k))),
+          'suffix': '_%s_%s' % (o, s_)} for s_, t in _PT for o, k in (('n', 0), ('c', 1), ('r', 2))],
+}
+
+
+def regen(ctx):
+    import bridge
+    return bridge.regen_bridge(ctx, BRIDGE_SPEC)
+
 
 # ops:  nrm.compute T k overload init n coords...   one call on objects built for it
 #       nrm.cloud T n coords... | nrm.est T k | nrm.use T overload init   objects kept by the case (histories, see harness/c09.cpp)
